@@ -77,6 +77,7 @@ class Meth:
         self.kind, self.name, self.params, self.ret = kind, name, params or [], ret
         self.override, self.locals, self.inh = override, locals_ or [], inh
         self.extra = []      # statements contributed by other methods' toggles (other / elsewhere)
+        self.param_kinds = []  # (modifier, type) per parameter; default ("", "int")
 
 
 class Prog:
@@ -138,11 +139,12 @@ def render(p):
         if m.params:
             head += "("
             parts = []
-            for pn in m.params:
-                pcol = len(head) + sum(len(x) + 2 for x in parts)
+            for pi, pn in enumerate(m.params):
+                mod, pty = m.param_kinds[pi] if pi < len(getattr(m, "param_kinds", [])) else ("", "int")
+                pcol = len(head) + sum(len(x) + 2 for x in parts) + (len(mod) + 1 if mod else 0)
                 if not m.override and not pn[0].isupper():
                     o.flag("naming:param", l0, pcol, pn)
-                parts.append("%s : int" % pn)
+                parts.append("%s%s : %s" % (mod + " " if mod else "", pn, pty))
             head += ", ".join(parts) + ")"
         if m.kind == "func":
             head += " return "
@@ -287,6 +289,7 @@ def gen_method(rng, idx, c16_weight):
         if rng.chance(1, 3):
             pn = pn.lower()
         params.append(pn)
+    kinds = [(rng.choice(["", "", "const", "var", "inout"]), rng.choice(["int", "int", "Text", "tVarByteArray", "aListOfInstances"])) for _ in params]
     ret = "int"
     if kind == "func":
         if rng.chance(1 + c16_weight, 3):
@@ -296,6 +299,7 @@ def gen_method(rng, idx, c16_weight):
         else:
             ret = rng.choice(PLAIN_RET)
     m = Meth(kind, name, params, ret, override)
+    m.param_kinds = kinds
     m.inh = rng.choice(list(INH_MODES)) if (name.upper() in [x.upper() for x in INHERITED_NAMES] or rng.chance(1, 4)) else "none"
     names = list(BASE)
     rng.shuffle(names)
